@@ -1,6 +1,7 @@
 package checks
 
 import (
+	"syscall"
 	"os"
 	"path/filepath"
 	"runtime"
@@ -717,6 +718,29 @@ func c08Special(c *Ctx, cs *Case, f, merged model.Forest, doc, fkey string) {
 			}
 			j.Remove()
 		}
+	}
+	// ---------------- (d) the first root exists, but as something that is neither a directory nor a
+	// regular file (a FIFO): like a file root, it exists and nothing exists beneath it
+	for _, strict := range []bool{false, true} {
+		j, err := mon.NewJail(c.TmpDir, true)
+		if err != nil {
+			return
+		}
+		for _, e := range model.FSEntries(merged[1:], nil) {
+			mkdirAll(j.Target + "/" + e.Path)
+		}
+		if err := syscall.Mkfifo(filepath.Join(j.Target, merged[0].Name), 0o644); err != nil {
+			j.Remove()
+			break
+		}
+		rt := verifyRoutes[0]
+		o := verifyCall(rt, doc, nil, fsOpts(j.Target, nil, false, false, false, strict))
+		cs.Entry = rt.Name + "[first root is a FIFO]"
+		c.Eval(gen.HashString(fkey+"\x00fifo"+strconv.FormatBool(strict)), true)
+		c.Count("special_file_root_cases", 1)
+		c08Judge(c, cs, merged, j.Target, j.Target, strict, o, map[string]any{"forest": fkey, "strict": strict, "first_root": "FIFO"})
+		cs.Entry = ""
+		j.Remove()
 	}
 	// ---------------- (b)
 	if len(merged) >= 1 {
